@@ -56,6 +56,9 @@ type c03script struct {
 	// C08: Do runs under a deadline that lies 30 ms behind the arrival of the last packet (idle gaps
 	// included): every packet is in time, the last read timeouts are reported close to the deadline.
 	tight bool
+	// instrumented: Options.OpenTelemetryInstrumentation (default no-op providers): the
+	// client's own bookkeeping per packet runs too
+	instrumented bool
 }
 
 func (s c03script) methodOf(i int) byte {
@@ -123,8 +126,15 @@ func drawScript(rt *rapid.T) c03script {
 		case "endmarker":
 			s.items = append(s.items, Item{Kind: "data", Block: &ref.Block{}})
 		case "progress":
-			s.items = append(s.items, Item{Kind: "progress", Progress: ref.Progress{Rows: rapid.Uint64Range(0, 1000).Draw(rt, "p-rows"), Bytes: rapid.Uint64().Draw(rt, "p-bytes"),
-				TotalRows: 5, WroteRows: 6, WroteBytes: 7, ElapsedNs: rapid.Uint64Range(0, 1<<40).Draw(rt, "p-el")}})
+			p := ref.Progress{Rows: rapid.Uint64Range(0, 1000).Draw(rt, "p-rows"), Bytes: rapid.Uint64().Draw(rt, "p-bytes"),
+				TotalRows: 5, WroteRows: 6, WroteBytes: 7, ElapsedNs: rapid.Uint64Range(0, 1<<40).Draw(rt, "p-el")}
+			switch rapid.IntRange(0, 5).Draw(rt, "p-shape") {
+			case 0:
+				p.Rows, p.Bytes = 0, 0 // totals only: nothing was read since the last packet
+			case 1:
+				p = ref.Progress{} // all zero
+			}
+			s.items = append(s.items, Item{Kind: "progress", Progress: p})
 		case "profile":
 			s.items = append(s.items, Item{Kind: "profile", Profile: ref.Profile{Rows: rapid.Uint64Range(0, 99).Draw(rt, "pf-rows"), Blocks: 2, Bytes: 3, AppliedLimit: rapid.Bool().Draw(rt, "pf-limit"), RowsBeforeLimit: 9, Calculated: true}})
 		case "profileevents":
@@ -158,6 +168,7 @@ func drawScript(rt *rapid.T) c03script {
 		}
 	}
 	s.ctxDeadline = rapid.Bool().Draw(rt, "ctx-with-far-deadline")
+	s.instrumented = rapid.IntRange(0, 3).Draw(rt, "instrumented") == 0
 	s.warm = rapid.SampledFrom(warmKinds).Draw(rt, "earlier-exchange")
 	s.onResult = rapid.Bool().Draw(rt, "on-result")
 	s.onProgress = rapid.Bool().Draw(rt, "on-progress")
@@ -347,6 +358,9 @@ func runScriptOpts(rt *rapid.T, s c03script, segsFor func(i int, n int) []int, g
 		e.srv.Steps = append(e.srv.Steps, st)
 	}
 	opt := baseOptions(s.clientRev, s.comp)
+	if s.instrumented {
+		opt.OpenTelemetryInstrumentation = true
+	}
 	if shortReadTimeout {
 		opt.ReadTimeout = 50 * time.Millisecond
 	}
